@@ -203,6 +203,9 @@ pub fn c14(run: &Run) -> Vec<String> {
         }
     }
     if matches!(run.cfg.routing, Routing::KeyPersistent | Routing::Sticky) {
+        // (second recorded finding: a job parked for a worker that refuses messages but has not been reported dead
+        // is not "in progress" for the sticky router, which sends the key's next job elsewhere)
+        let sig = if !stale && run.cfg.routing == Routing::Sticky && run.history.iter().any(|e| matches!(e, Event::StopSlowly(_))) { "[[sig:parked-job-of-a-lingering-worker-breaks-key-affinity]] " } else { sig };
         for a in &iv {
             for b in &iv {
                 if a.5 < b.5 && a.4 == b.4 && a.2 != b.2 && a.0 < b.1 && b.0 < a.1 {
